@@ -5,7 +5,7 @@
    number of events; every step is one shared-memory access or one lock / Event / pipe operation of
    the real source).  [reachable m s] = s is reached from the initial state by some interleaving. *)
 From Coq Require Import List Arith Bool.
-From Circ Require Import Model.Wake Proofs.WakeInvP Proofs.WakeP.
+From Circ Require Import Model.Wake Proofs.WakeInvP Proofs.WakeP Proofs.WakeOnceP.
 Import ListNotations.
 
 (* Safety form of "fire() returning implies the loop dispatches that event without needing a timeout":
@@ -33,6 +33,22 @@ Theorem C03_mutual_exclusion : forall m s, reachable m s -> forall t u,
   0 < held s t -> 0 < held s u -> t = u.
 Proof. exact mutual_exclusion. Qed.
 Print Assumptions C03_mutual_exclusion.
+
+(* Nothing lost, nothing duplicated, firing order kept: for every firing thread i, its events that have
+   been handed to the dispatcher ([disp], in dispatch order) followed by those still queued are exactly
+   EvF i 0, ..., EvF i (fapp-1), in that order ([fapp] = number of events the thread has appended).
+   (All events have the same priority; the queue's heap is keyed by the shared counter, ties possible only
+   between a foreign event and one fired by the loop thread itself.) *)
+Theorem C03_exactly_once_in_order : forall m s, reachable m s -> forall i,
+  proj i (disp s ++ pending s) = map (EvF i) (seq 0 (fapp (fts s i))).
+Proof. exact exactly_once_in_order. Qed.
+Print Assumptions C03_exactly_once_in_order.
+
+Theorem C03_dispatched_once : forall m s, reachable m s -> forall i,
+  NoDup (proj i (disp s)) /\
+  exists n, n <= fapp (fts s i) /\ proj i (disp s) = map (EvF i) (seq 0 n).
+Proof. exact dispatched_once. Qed.
+Print Assumptions C03_dispatched_once.
 
 (* ---- non-vacuity: blocked states with a queued foreign event are reachable (the firing thread is mid-fire) *)
 Definition idle_fallback : list (nat * lbl) :=
@@ -65,4 +81,17 @@ Example C03_ex_poller :
       (map (fun a => (0, a)) [ACount; AAppG Neg; ASnap; AMove; ACall (EvG 0); AAcq; ASetH; AArmTest; ARel;
                               ASetHd HWake; APRead] ++ fire_upto_append) = Some s /\
     blocked s = true /\ pending s = [EvF 0 0] /\ returned s (EvF 0 0) = false.
+Proof. eexists. split; [vm_compute; reflexivity|]. vm_compute. auto. Qed.
+
+(* two threads, three events, dispatched: per-thread order visible in [disp] *)
+Example C03_ex_order :
+  exists s, run (init Fallback)
+    (idle_fallback ++ fire_upto_append ++ fire_rest ++
+     map (fun a => (2, a)) [AAcq; AFReadH; ACount; AAppF; AAcq; ARTest; ARel; ARel; ARet] ++
+     map (fun a => (1, a)) [AAcq; AFReadH; ACount; AAppF; AAcq; ARTest; ARel; ARel; ARet] ++
+     map (fun a => (0, a)) [AWait true; AWTestNeg; AClr; ACount; AAppG Neg; ASnap; AMove; AMove; AMove; AMove;
+                            ACall (EvF 0 0); ASetH; ADisp (EvF 0 0); AClr; ACall (EvF 1 0); ASetH; AClr;
+                            ACall (EvF 0 1); ASetH; AClr]) = Some s /\
+    disp s = [EvG 0; EvF 0 0; EvF 1 0; EvF 0 1] /\ proj 0 (disp s) = [EvF 0 0; EvF 0 1] /\
+    pending s = [EvG 1].
 Proof. eexists. split; [vm_compute; reflexivity|]. vm_compute. auto. Qed.
